@@ -47,7 +47,7 @@ def write_all(image: bytes, work: str) -> dict:
     # mixed-mode discs: a data track followed by audio tracks is still a sampler image
     audio = ["  TRACK 02 AUDIO\n", '    TITLE "Bonus"\n', "    INDEX 00 00:02:00\n", "    INDEX 01 00:04:00\n"]
     w("xr.bin", image)
-    paths["cue_raw_mixed"] = w("xr.cue", "".join(cue_text("xr.bin", "MODE1/2048") + audio), "w")
+    paths["cue_raw_mixed"] = w("XR.CUE", "".join(cue_text("xr.bin", "MODE1/2048") + audio), "w")      # recognition is by content, not by name
     w("xm.bin", to_mode1_2352(image))
-    paths["cue_mdf_mixed"] = w("xm.cue", "".join(cue_text("xm.bin", "MODE1/2352") + audio + ["  TRACK 03 AUDIO\n", "    INDEX 01 00:09:00\n"]), "w")
+    paths["cue_mdf_mixed"] = w("xm.cue.txt", "".join(cue_text("xm.bin", "MODE1/2352") + audio + ["  TRACK 03 AUDIO\n", "    INDEX 01 00:09:00\n"]), "w")
     return paths
